@@ -33,6 +33,11 @@ CLAIMED = {
    technique="deterministic simulation with crash/restart semantics: dump at arbitrary history points, load into arbitrary receivers, lock-step continuation of original and reloaded replica",
    text="At random points of seeded histories an object is dumped and the text loaded into a fresh object or into a copy of any live object (any lazy state); load must succeed, give OK(), an identical re-dump and an equal value, and the replica must answer all later operations like the original.",
    note="Currently instantiated for C and NNC polyhedra; streams are std::stringstream (chunked streambuf not built yet)."),
+ "C16": dict(
+   category="exploration", design_ref="DESIGN.md §4 C16",
+   technique="deterministic simulation of operation histories against a reference model (plain vector) with lock-step sparse/dense replicas",
+   text="Seeded histories over Sparse_Row / Dense_Row / vector triples and DENSE / SPARSE Linear_Expression pairs: after every step all replicas agree index by index, iteration is strictly increasing and skips no non-zero entry, returned iterators point at the requested index, OK() holds, and queries agree across representations. No clock, schedule or fault is involved; the simulator chooses histories and sizes across the tree's rebalancing thresholds.",
+   note="Constraint/Generator/Congruence systems built in both representations are not covered yet; the ASan batch makes out-of-bounds accesses inside the tree visible."),
 }
 
 NOT_APPLICABLE = {
